@@ -96,6 +96,21 @@ func conTypes() []*conType {
 		}
 		// a non-initial start: a stack that had grown (40 elements) and was popped down to 16 -- its
 		// backing array is four times its length, where shrinking/compaction logic would kick in
+		// a long stack whose only 1 and only 2 sit deep inside (at depths 256 and 512 from either end):
+		// scans that work in portions must still find them while another call changes the length
+		t.inits = append(t.inits, initSpec{"long-600-with-1-at-256-and-2-at-343", func() any {
+			s := stack.New[int]()
+			for i := 0; i < 600; i++ {
+				v := 3
+				if i == 256 {
+					v = 1
+				} else if i == 343 { // 256 from the top
+					v = 2
+				}
+				s.Push(v)
+			}
+			return s
+		}})
 		for _, m := range grownSizes() {
 			m := m
 			t.inits = append(t.inits, initSpec{fmt.Sprintf("grown-to-100-popped-to-%d", m), func() any {
@@ -180,6 +195,19 @@ func conTypes() []*conType {
 				return q
 			}})
 		}
+		t.inits = append(t.inits, initSpec{"long-600-with-1-at-256-and-2-at-512", func() any {
+			q := queue.New[int]()
+			for i := 0; i < 600; i++ {
+				v := 3
+				if i == 256 {
+					v = 1
+				} else if i == 512 {
+					v = 2
+				}
+				q.Enqueue(v)
+			}
+			return q
+		}})
 		for _, m := range grownSizes() {
 			m := m
 			t.inits = append(t.inits, initSpec{fmt.Sprintf("grown-to-100-dequeued-to-%d", m), func() any {
